@@ -92,6 +92,14 @@ def _statkeys(ck: Checker) -> None:
     for fld in ("ino", "mtime", "size", "mode"):
         n, v = produced[fld]
         base = v.value if isinstance(v, ast.Attribute) else None
+        if isinstance(v, ast.Name):
+            # `mtime = out.st_mtime` read into a local earlier: the stat result is the one `out` named THERE
+            dn = [d for d in reaching_defs(g, n.id, v.id)]
+            if len(dn) == 1 and dn[0].kind == "stmt" and isinstance(dn[0].ast, (ast.Assign, ast.AnnAssign)) and isinstance(getattr(dn[0].ast, "value", None), ast.Attribute) \
+                    and isinstance(dn[0].ast.value.value, ast.Name):
+                b_ = dn[0].ast.value.value
+                srcs[fld] = (b_.id, tuple(sorted(d.id for d in reaching_defs(g, dn[0].id, b_.id))))
+                continue
         if base is None:
             alts = [a for a in value_alts(g, n, v, depth=3) if isinstance(a, ast.Attribute)]
             base = alts[0].value if alts else None
